@@ -342,7 +342,9 @@ result<bool> url_pattern<regex_provider>::test(
 
   auto url =
       ada::parse<url_aggregator>(std::get<std::string_view>(input),
-                                 base_url.has_value() ? &*base_url : nullptr);
+                                 // A default-constructed result holds a value: only
+                                 // use it when a base URL string was actually given.
+                                 base_url_string ? &*base_url : nullptr);
   if (!url) {
     return false;
   }
@@ -466,8 +468,9 @@ result<std::optional<url_pattern_result>> url_pattern<regex_provider>::match(
       inputs.emplace_back(*base_url_string);
     }
 
-    url_aggregator* base_url_value =
-        base_url.has_value() ? &*base_url : nullptr;
+    // A default-constructed result holds a value, so has_value() cannot tell
+    // "no base URL" apart: baseURL stays null unless a string was given.
+    url_aggregator* base_url_value = base_url_string ? &*base_url : nullptr;
 
     // Set url to the result of parsing input given baseURL.
     auto url = ada::parse<url_aggregator>(std::get<std::string_view>(input),
